@@ -19,6 +19,7 @@ import (
 	"github.com/drand/drand/v2/internal/chain"
 	"github.com/drand/drand/v2/internal/chain/beacon"
 	"github.com/drand/drand/v2/internal/chain/boltdb"
+	chainerrors "github.com/drand/drand/v2/internal/chain/errors"
 	"github.com/drand/drand/v2/internal/chain/memdb"
 	"github.com/drand/drand/v2/zzverif/emit"
 )
@@ -148,16 +149,22 @@ func (rs *realStack) waitCallbacks(n int) int {
 
 func (rs *realStack) restart(expectCbs int) error {
 	rs.waitCallbacks(expectCbs) // let the worker drain before the store is stopped
-	rs.top.RemoveCallback("verif")
-	if err := rs.top.Close(); err != nil {
+	top := rs.top
+	rs.top = nil
+	top.RemoveCallback("verif")
+	if err := top.Close(); err != nil {
 		return err
 	}
 	return rs.build()
 }
 
 func (rs *realStack) close() {
-	rs.top.RemoveCallback("verif")
-	rs.top.Close()
+	if rs.top != nil {
+		rs.top.RemoveCallback("verif")
+		rs.top.Close()
+	} else if rs.base != nil && rs.cfg.kind != "mem" {
+		rs.base.Close() // a rebuild failed half-way: the reopened bolt file is still open
+	}
 	if rs.dir != "" {
 		os.RemoveAll(rs.dir)
 	}
@@ -192,6 +199,13 @@ type sobs struct {
 	res  string // stored already cancelled other | true false | restarted
 	scan []sout
 	last sout
+}
+
+func errClass(err error) string {
+	if errors.Is(err, chainerrors.ErrNoBeaconStored) {
+		return "ErrNoBeaconStored"
+	}
+	return "error"
 }
 
 func classify(err error) string {
@@ -353,8 +367,13 @@ func (m *stackMonitor) check(i int, e sev, o sobs) {
 		if grew {
 			m.stored++
 		}
-		if o.last.r != e.r || (grew && o.last.r != m.head+1) {
+		if o.last.r != e.r || (grew && o.last.r != m.head+1) || !bytes.Equal(o.last.sig, e.sig) {
 			m.fail("stored-mismatch", fmt.Sprintf("%s: tryAppend true, head %d -> %s", where, m.head, o.last.short()))
+		}
+	case o.res == "already":
+		// already-stored may only be said of a beacon identical to the stored head
+		if grew || e.r != o.last.r || !bytes.Equal(e.sig, o.last.sig) {
+			m.fail("already-but-different", fmt.Sprintf("%s: reported already stored, but the head is %s", where, o.last.short()))
 		}
 	default:
 		if grew || len(sc) != len(m.prev) {
@@ -484,7 +503,7 @@ func RunStack(outDir string, seed int64, tier string) error {
 	}
 	defer os.RemoveAll(root)
 	g := &stackGen{rng: rand.New(rand.NewSource(seed))}
-	nseq, nlen := 22, 22
+	nseq, nlen := 16, 20
 	if tier == "thorough" {
 		nseq, nlen = 500, 40
 	}
@@ -523,7 +542,11 @@ func RunStack(outDir string, seed int64, tier string) error {
 			}
 			res, err := rs.apply(e, mon.stored)
 			if err != nil {
-				return fmt.Errorf("%s: %s: %w", cfg.name, e.short(), err)
+				// the stack cannot be rebuilt from what is in the store (Last fails): the
+				// property is already broken; report and end this sequence
+				trace = append(trace, e.short()+"->FAILED")
+				mon.fail("restart-failed", fmt.Sprintf("event %d %s: the wrapper stack cannot be rebuilt on the stored chain: %v", i, e.short(), errClass(err)))
+				break
 			}
 			sc, nl := rs.scan()
 			o := sobs{res: res, scan: sc, last: nl}
@@ -576,7 +599,7 @@ func RunStack(outDir string, seed int64, tier string) error {
 	}
 	rep.Extra["resync_raw_put"] = resyncObservation(root)
 	rep.Rule = "one evaluation = one event sequence on the real stack NewCallbackStore(newAppendStore(NewSchemeStore(newDiscrepancyStore(base)))) over untrimmed bolt, trimmed bolt, memdb 10 and 12, chained and unchained scheme/context; events chosen by looking at the real head: next round (right / wrong / arbitrary previous signature), duplicates (same, other signature, other previous signature), gaps, old rounds, cancelled contexts, through Put or through chainStore.tryAppend with a fresh or stale view, and close/reopen restarts; after every event the result class, a full cursor scan and Last are recorded; distinct = distinct (configuration, event trace); non-trivial = the head moved at least once"
-	if err := rep.Shard(outDir, "cases_stack", []string{"From DV Require Import Model.Backends Model.StoreStack Corr.StackCorr."}, "kcase", "mismatches", lines, descr, 30); err != nil {
+	if err := rep.Shard(outDir, "cases_stack", []string{"From DV Require Import Model.Backends Model.StoreStack Corr.StackCorr."}, "kcase", "mismatches", lines, descr, 12); err != nil {
 		return err
 	}
 	return rep.Write(outDir)
